@@ -408,8 +408,19 @@ def rule_recurrent_loop(ctx: Ctx, out: Collector) -> None:
                 return (rec, usedef)
 
             problems = []
+            # what the path knows when the loop is exhausted (flags set before / inside the loop)
+            exhausted_facts = set()
+            s0 = Search(ctx.p, g, EXC_LABELS)
+
+            def collect(e, st, f, lp=lp):
+                if e.id == lp.id:
+                    exhausted_facts.add(frozenset(kv for kv in f if kv[0][1] == lp.inst.iid and kv[0][0] in ('v', 'a')))
+                return False
+            s0.run([(g.entry, 0, frozenset())], lambda e, st, f: 0, collect)
+            if not exhausted_facts:
+                exhausted_facts = {frozenset()}
             if fsucc:
-                starts = [(f, (0, 0), frozenset()) for f in fsucc]
+                starts = [(f, (0, 0), fx) for f in fsucc for fx in exhausted_facts]
                 res = s.run(starts, None, lambda e, st, f: e.id in defaults and st != (1, 1), edge_step=estep)
                 if res is not None:
                     problems.append(('the default is produced on exhaustion without the (Recurrent marker and use_default) guard', res[0]))
@@ -419,7 +430,7 @@ def rule_recurrent_loop(ctx: Ctx, out: Collector) -> None:
                     if e.id in ok_events or e.id in requests:
                         return None
                     return 0
-                res2 = s2.run([(f, 0, frozenset()) for f in fsucc], step2, lambda e, st, f: e.id in ends)
+                res2 = s2.run([(f, 0, fx) for f in fsucc for fx in exhausted_facts], step2, lambda e, st, f: e.id in ends)
                 if res2 is not None:
                     problems.append(('exhaustion can end without a default and without RecurrentSubgraphDoesNotHaveResultError', res2[0]))
             else:
